@@ -38,7 +38,8 @@ impl ConfigFile {
             if !line.is_empty() && line != "\0" {
                 if line.contains('<') || line.contains('>') {
                     // Category
-                    let name = &line[1..line.len() - 1];
+                    let name = line.strip_prefix('<').unwrap_or(&line);
+                    let name = name.strip_suffix('>').unwrap_or(name);
                     current_category = Some(String::from(name));
                     cfg.categories.push(String::from(name));
                 } else if let (Some(category), Some((key, value))) =
